@@ -269,3 +269,32 @@ Theorem results_unsupported_refuted :
                 results_same r' (res_of (FPl (PDict [(KInt 1%Z, PNone)]))) = false) /\
   jenc (res_of FOt) = None.
 Proof. repeat split; try (eexists; eexists; repeat split; vm_compute; reflexivity). Qed.
+
+(* ==== open: C12-GENERIC-VALUE-TYPE — convert_model(m, 'generic') does not carry value_type over: a
+   LIKELIHOOD model becomes a PREDICTION model, and its generic code parses back to that ==== *)
+Definition M_likelihood : model strG :=
+  mkModel strG "m" "" [] no_rvs [] [] no_di "LIKELIHOOD" [("Symbol('Y')", 1%Z)] [("Symbol('Y')", "Symbol('Y')")] None.
+Theorem generic_value_type_refuted :
+  model_eq strG (generic_convert strG M_likelihood) M_likelihood = false /\
+  forall (dumps : pyv -> string) (loads : string -> option pyv) version,
+    loads (dumps (generic_code_dict strG version (generic_convert strG M_likelihood))) =
+      Some (normalise (generic_code_dict strG version (generic_convert strG M_likelihood))) ->
+    exists y, generic_roundtrip strG dumps loads version M_likelihood = Some y /\ model_eq strG y M_likelihood = false.
+Proof.
+  split; [vm_compute; reflexivity|]. intros dumps loads version L.
+  eexists. split.
+  - apply (generic_image strG strG_ok dumps loads version M_likelihood L); [reflexivity | | discriminate].
+    intros kv [E|[]]. subst. reflexivity.
+  - vm_compute. reflexivity.
+Qed.
+
+(* ==== open: C12-MODELFIT-GRADIENTS-DEFAULT — ModelfitResults.gradients_iterations defaults to the
+   tuple (None,) (a stray comma): every ModelfitResults that does not set it comes back from
+   to_json / read_results with the list [None] there ==== *)
+Definition mfr_default : results jtbl jtbl :=
+  Res "pharmpy.workflows.results" "ModelfitResults"
+      [("__version__", FPl (PStr "1.2.0")); ("ofv", FPl (PFloat (FFin (3 # 2)))); ("gradients_iterations", FPl (PTuple [PNone]))].
+Theorem results_gradients_default_refuted :
+  gradients_default mfr_default = true /\ results_supported jtbl jtbl mfr_default = false /\
+  exists p r', jenc mfr_default = Some p /\ jdec (normalise p) = Some r' /\ results_same r' mfr_default = false.
+Proof. split; [reflexivity|]. split; [reflexivity|]. eexists. eexists. repeat split; vm_compute; reflexivity. Qed.
